@@ -494,6 +494,7 @@ type c15Run struct {
 	ds  ipld.DAGService
 	d   Directory
 	ent map[string]string // harness copy of what was asked for; used ONLY to pick the canonical builds
+	dead bool
 }
 
 func (e *c15Engine) start(wd *c15World, c c15Cfg) (*c15Run, error) {
@@ -625,7 +626,22 @@ func (r *c15Run) observe(noEach bool) M {
 	return ev
 }
 
+// step performs one call and emits its event.  A panic inside the library is an outcome of the call
+// (reported as err "panic: ..." which no spec action produces), not a failure of the driver.
 func (r *c15Run) step(op, n, t string, noEach bool) {
+	defer func() {
+		if p := recover(); p != nil {
+			name := map[string]string{"A": "AddChild", "R": "RemoveChild", "L": "Reload"}[op]
+			vEmit(M{"ev": name, "n": n, "t": t, "err": fmt.Sprint("panic: ", p), "mode": "?", "thr": 0, "maxLinks": 0,
+				"est": "?", "bk": M{"est": 0, "tl": 0, "sc": 0}, "links": [][]string{}, "each": [][]string{},
+				"async": [][]string{}, "reload": [][]string{}, "find": M{}, "cidIs": "?", "cidDyn": "na",
+				"shards": [][]int{}, "vals": [][]any{}})
+			r.dead = true
+		}
+	}()
+	if r.dead { // the directory object is in an unknown state after a panic: the run ends there
+		return
+	}
 	ctx := r.e.ctx
 	var ev M
 	switch op {
